@@ -95,6 +95,22 @@ add('C05',
     "restriction bookkeeping unmodified; only the four Gauss-Seidel kernels, "
     "core.restrict, solver.prolongation and solver.residual are recorders.")
 
+add('C15',
+    "Hypothesis over constructed grid pairs x values x mode; oracles: "
+    "conservation, range, identity, nearest fill, differential against an "
+    "independent tensor-product overlap reference and against "
+    "discretize.utils.volume_average, exact transposition of the adjoint, "
+    "mapping invariance in log mode, jit-vs-py_func",
+    "Exploration: grid pairs are built by construction per direction "
+    "(ident/same/refine/coarsen/inside/outside/shift/disjoint, 1..12 "
+    "cells, exact integer lattice or float nodes with large offsets), "
+    "values over up to 8 decades; emg3d.maps.interpolate(method='volume'), "
+    "its adjoint, Model.interpolate_to_grid and the weight kernel are each "
+    "compared with a checker-side reference and the named peer operator.",
+    "Trusted: checker-side overlap reference in vp/checks/c15_volavg.py, "
+    "discretize as named peer; tolerance 1e4 eps kappa (kappa accounts for "
+    "rounding of float node coordinates; 1 on the exact lattice).")
+
 NOT_BUILT = "check not built yet (see DESIGN.md section 3 for the plan)"
 
 
